@@ -38,6 +38,11 @@ nothing at all, one-element lists, ties and boundary values, int-typed columns, 
 type (with and without a key count in reamber's table), sets of 0..5 charts with empty charts first / in the middle / only,
 metadata with format separators, double-byte punctuation, empty strings; every optional argument (move_right_by, raise_bad_mode);
 calls through the class and through an instance; the same source converted twice, another source converted in between.
+Further: sources whose first lane(s) are empty with NEGATIVE explicit shifts (-1, -2: a shift to the left inside the lanes);
+convert - change the same source object through public operations (`CHANGES`) - convert again: the second result is what
+the statement says for the source as it is then (same clause ids, the detail says so) and stays so when observed twice;
+`fields_exact` also takes the target game's fields from the DATA (a chart read from a bundled file of the target game), not only
+from the list classes' own property tables.
 """
 from __future__ import annotations
 
@@ -236,10 +241,24 @@ def _fill_chart(chart, content, sv):
     return chart
 
 
-def _build_memory(game, variant, meta, keys=None, charts=None):
+def _lifted(content, lift):
+    """the same content with every note `lift` columns further right (the lowest used column becomes `lift`)"""
+    if not lift:
+        return content
+    return dict(content, hits=[(o, c + lift) for o, c in content["hits"]], holds=[(o, c + lift, ln) for o, c, ln in content["holds"]])
+
+
+def _build_memory(game, variant, meta, keys=None, charts=None, lift=0):
     """`keys`: key count of the chart of a single-chart game (default 4; the last rows use the highest column).
     `charts`: for the two set games, a list of [variant, StepMania chart type or None] replacing the default layout of the set
-    (any number of charts for StepMania, three for O2Jam)."""
+    (any number of charts for StepMania, three for O2Jam).
+    `lift`: the notes use the columns lift..keys-1 only (the first `lift` lanes are empty), so that a shift to the LEFT by up to
+    `lift` stays inside the lanes."""
+    _plain_content = globals()["_content"]
+
+    def _content(variant, keys, k=0):  # noqa  (shadows the module function inside this builder only)
+        return _lifted(_plain_content(variant, keys - lift, k), lift)
+
     g = _game(game)
     md = META[meta]
     enc = (lambda s: s.encode("shift_jis")) if game == "bms" else (lambda s: s)
@@ -374,6 +393,45 @@ def _apply_op(game, src, op):
     return src
 
 
+# legitimate changes of a source that was converted already (the SAME object is then converted again): the history operations
+# that work in place or assign a new list, rate() (a new object made from the converted one), and in-place edits through the
+# list properties / the stack / the metadata attributes
+CHANGES = ["edit_offsets", "edit_bpm", "mirror_columns", "retitle", "stack", "append", "append_sort", "filter", "filter_middle", "sort_reverse", "rate"]
+
+
+def _apply_change(game, src, op):
+    if op in OPS or op in OPS_EXTRA:
+        return _apply_op(game, src, op)
+    if op == "retitle":
+        new = "Changed title 2"
+        src.title = new.encode("shift_jis") if game == "bms" else new
+        if game == "osu":
+            src.title_unicode = new
+        return src
+    for c in _charts(game, src):
+        if op == "edit_offsets":
+            # in place through the list properties
+            if len(c.hits):
+                c.hits.offset += 2.5
+            if len(c.holds):
+                c.holds.offset -= 0.25
+                c.holds.length *= 2
+            if len(c.bpms):
+                c.bpms.offset += 7
+        elif op == "edit_bpm":
+            if len(c.bpms):
+                c.bpms.bpm *= 2
+        elif op == "mirror_columns":
+            # through the stack: every note to the mirrored lane (the lowest and the highest used lane stay used)
+            cols = [float(x) for L in (c.hits, c.holds) for x in L.column]
+            if cols:
+                s = c.stack()
+                s.column = (max(cols) + min(cols)) - s.column
+        else:
+            raise ValueError(op)
+    return src
+
+
 def _histories(rng, n_random):
     yield []
     for a in OPS:
@@ -496,7 +554,7 @@ def _build_source(case):
     game = case["src"]
     b = case["base"]
     if b["kind"] == "memory":
-        src = _build_memory(game, b["variant"], b["meta"], keys=b.get("keys"), charts=b.get("charts"))
+        src = _build_memory(game, b["variant"], b["meta"], keys=b.get("keys"), charts=b.get("charts"), lift=b.get("lift", 0))
     else:
         src = _load_fixture(game, b["path"])
     for op in case["ops"]:
@@ -532,6 +590,27 @@ def _proto_lists(tgame):
     if tgame not in _PROTO_CACHE:
         _PROTO_CACHE[tgame] = {k: type(L) for k, L in _game(tgame)["chart"]().objs.items()}
     return _PROTO_CACHE[tgame]
+
+
+_DATA_FIELDS = {}
+
+
+def _data_fields(tgame):
+    """list name -> sorted field names, taken from the DATA: the lists of a chart of the target game read from a bundled file
+    (not from the list classes' own property tables).  {} when no bundled file of the game can be read."""
+    if tgame not in _DATA_FIELDS:
+        out = {}
+        for rel in QUICK_FIXTURES[tgame]:
+            try:
+                with warnings.catch_warnings():
+                    warnings.simplefilter("ignore")
+                    c = _charts(tgame, _load_fixture(tgame, os.path.join(MAPS, rel)))[0]
+                out = {k: sorted(str(x) for x in L.df.columns) for k, L in c.objs.items()}
+                break
+            except Exception:  # noqa  (reading is another property's business)
+                continue
+        _DATA_FIELDS[tgame] = out
+    return _DATA_FIELDS[tgame]
 
 
 def _callable(case):
@@ -591,6 +670,10 @@ def _check_result(sgame, tgame, res, n_charts, want, want_meta, sfx, shift, cont
             cols = [str(c) for c in L.df.columns]
             if sorted(cols) != sorted(decl):
                 failed.append(("fields_exact", f"chart {i}.{k} ({type(L).__name__}): fields {cols}, declared {decl}, extra {[c for c in cols if c not in decl]}, missing {[c for c in decl if c not in cols]}"))
+            data = _data_fields(tgame).get(k)
+            if data is not None and sorted(cols) != data:
+                # the target game's fields as the DATA show them: the same list of a chart read from a bundled file of that game
+                failed.append(("fields_exact", f"chart {i}.{k} ({type(L).__name__}): fields {sorted(cols)}, the same list of a {tgame} chart read from a bundled file has {data}"))
             mapped = {"hits": ("offset", "column"), "holds": ("offset", "column", "length"), "bpms": ("offset", "bpm"), "svs": ("offset", "multiplier")}.get(k, ())
             for cname in decl:
                 if cname in mapped or cname not in L.df.columns:
@@ -701,6 +784,34 @@ def _run_case_inner(case, src):
 
     # ---- repetition: the same source converted a second time; another source converted in between.  The second result
     #      must satisfy every clause like the first, and the first result must still be what it was (its own clause).
+    # ---- call - legitimate change - call again: the SAME source object is changed through public operations and converted
+    #      again; the second result must be what the statement says for the source AS IT IS NOW (same clause ids)
+    if case.get("change"):
+        tag = f"after the converted source was changed ({', '.join(case['change'])}) and converted again: "
+        try:
+            for op in case["change"]:
+                src = _apply_change(sgame, src, op)
+        except Exception:  # noqa  (the operations themselves are other properties' business)
+            src = None
+        if src is not None:
+            charts2, want2, want_meta2, relabelled2 = _expectations(sgame, src)
+            sfx2 = "_after_relabel" if relabelled2 else ""
+            snap2 = _snapshot(sgame, src)
+            try:
+                res2 = fn(src, **args)
+            except Exception as ex:  # noqa
+                failed.append(("no_exception", tag + f"{case['converter']} raised {type(ex).__name__}: {ex}"))
+                res2 = None
+            d = _snapshot_diff(sgame, src, snap2)
+            if d:
+                failed.append(("source_untouched", tag + d))
+            if res2 is not None:
+                failed += [(w, tag + dt) for w, dt in _check_result(sgame, tgame, res2, len(charts2), want2, want_meta2, sfx2, shift)]
+                # the same result object observed twice
+                again = {w for w, _ in _check_result(sgame, tgame, res2, len(charts2), want2, want_meta2, sfx2, shift)}
+                if again - {w for w, _ in failed}:
+                    failed.append(("earlier_result_unchanged_by_later_call", tag + f"the second result observed once more fails {sorted(again)}"))
+
     later = []
     if case.get("again"):
         try:
@@ -746,11 +857,14 @@ QUICK_FIXTURES = {
 }
 
 
-def _arg_variants(conv_name, shift_name, fn):
-    """Every optional argument of the converter with its default (omitted), the default given explicitly, and other values."""
+def _arg_variants(conv_name, shift_name, fn, lift=0):
+    """Every optional argument of the converter with its default (omitted), the default given explicitly, and other values.
+    `lift`: the source leaves its first `lift` lanes empty: the explicit shift also takes the NEGATIVE values -1..-lift
+    (a shift to the left that stays inside the lanes); they come right after the omitted form."""
     out = [{}]
     params = inspect.signature(fn).parameters
     if shift_name:
+        out += [{shift_name: -k} for k in range(1, lift + 1)]
         out += [{shift_name: 0}, {shift_name: 1}, {shift_name: 3}, {shift_name: 8}]
     if "raise_bad_mode" in params:
         out += [{"raise_bad_mode": True}, {"raise_bad_mode": False}]
@@ -774,11 +888,16 @@ def _new_memory_bases(game, rng):
         out = [mk(variant=v, meta="ascii") for v in NEW_VARIANTS]
         out += [mk(variant="full", meta="ascii", keys=7), mk(variant="unsorted", meta="punct", keys=7), mk(variant="ties", meta=wide, keys=7)]
         out += [mk(variant="sparse", meta="blank"), mk(variant="full", meta="punct"), mk(variant="hits_only", meta=wide)]
+        # charts whose first lane(s) are empty: every converter, and a negative explicit shift where the converter has one
+        out += [mk(variant="full", meta="ascii", lift=1), mk(variant="unsorted", meta="ascii", keys=7, lift=2), mk(variant="ties", meta="ascii", keys=7, lift=1)]
         return out
     if game == "o2jam":
         sets = [["hits_only", "no_notes", "holds_only"], ["full", "empty", "unsorted"], ["ties", "single", "ints"], ["no_tempo", "numpy", "full"], ["empty", "empty", "empty"]]
         out = [mk(variant="set", meta="ascii", charts=[[v, None] for v in vs]) for vs in sets]
         out += [mk(variant="full", meta="punct"), mk(variant="sparse", meta=wide), mk(variant="unsorted", meta="blank")]
+        # sets whose first lane(s) are empty (lanes numbered from 1 / from 2): a negative explicit shift stays inside the lanes
+        out += [mk(variant="full", meta="ascii", lift=1), mk(variant="set", meta="ascii", charts=[["ties", None], ["hits_only", None], ["ints", None]], lift=2),
+                mk(variant="set", meta="ascii", charts=[["holds_only", None], ["numpy", None], ["single", None]], lift=1)]
         return out
     # StepMania: any number of charts, any chart type
     ds, kb = "dance-single", "kb7-single"
@@ -791,6 +910,7 @@ def _new_memory_bases(game, rng):
         mk(variant="set", meta="ascii", charts=[["empty", ds], ["empty", ds]]),
         mk(variant="full", meta=wide),
         mk(variant="sparse", meta="blank"),
+        mk(variant="full", meta="ascii", lift=1),  # first lane empty
     ]
     # every chart type of the table (those reamber has a key count for and those it has none for), 5 per set, in seeded order
     # (the types Quaver can hold, 4 and 7 keys, in sets of their own so that SMToQua has to convert them)
@@ -838,8 +958,13 @@ def _from_game(game):
             "4 and 7 keys, metadata with ':' ',' '#' '//' ';' tab and double spaces / wave dash, ideographic space, full-width and half-width forms / empty strings"
             + (f", StepMania sets of 0, 1, 2, 3, 4, 5 charts (empty charts first, in the middle, only) and every chart type of {sorted(SM_TYPE_KEYS)}" if game == "sm" else "")
             + (", O2Jam sets with an empty / note-less / tempo-less chart first, in the middle, last, only" if game == "o2jam" else "")
-            + "; arguments: omitted, explicit column shift 0/1/3/8, raise_bad_mode True/False where the converter has them (all on the no-history sources built from objects, one seeded choice elsewhere); "
-            "seeded 15% of the cases call through an instance of the converter class, 10% convert the same source twice, 8% convert another source in between and re-read the first result"
+            + "; sources whose first 1 / 2 lanes are empty (among the further sources); arguments: omitted, explicit column shift 0/1/3/8 and, on the sources with empty first lanes, every NEGATIVE shift "
+            "that stays inside the lanes (-1, -2), raise_bad_mode True/False where the converter has them (all on the no-history sources built from objects, one seeded choice elsewhere - half of them negative "
+            "on the sources with empty first lanes); "
+            "seeded 15% of the cases call through an instance of the converter class, 10% convert the same source twice, 8% convert another source in between and re-read the first result, "
+            f"10% convert, then change the SAME source object by 1-2 of {CHANGES} (in-place edits of offsets / lengths / tempo through the list properties, columns through the stack, the title, "
+            "appended items, newly assigned lists, rate()) and convert it again: the second result is held against the source as it is then, and observed twice; "
+            "the fields of every result list are also compared with the fields of the same list of a chart READ from a bundled file of the target game"
         )
         rep.rule = "a case is (converter, arguments, way of calling, base chart, history, repetition); non-trivial when the history has at least one operation"
         rep.extra["arguments_not_varied"] = {n: _other_arguments(c[2], c[3]) for n, c in convs.items() if _other_arguments(c[2], c[3])}
@@ -884,12 +1009,15 @@ def _from_game(game):
             finally:
                 logging.disable(logging.NOTSET)
             for name, (sg, tg, f, shift_name) in sorted(convs.items()):
-                variants = _arg_variants(name, shift_name, f)
+                lift = base.get("lift", 0)
+                variants = _arg_variants(name, shift_name, f, lift)
+                n_neg = lift if shift_name else 0  # the negative shifts sit at variants[1 : 1 + n_neg]
                 if not all_args:
                     # every argument value is exercised on the in-memory charts with no history; elsewhere one seeded choice
-                    variants = [variants[rng.randrange(len(variants))]]
+                    # (on a source with empty first lanes: half of the choices a negative shift)
+                    variants = [variants[rng.randrange(1, 1 + n_neg)] if n_neg and rng.random() < 0.5 else variants[rng.randrange(len(variants))]]
                 elif base in new_bases and len(variants) > 3:
-                    variants = [variants[0], variants[rng.randrange(1, len(variants))]]
+                    variants = [variants[0]] + variants[1 : 1 + n_neg] + [variants[rng.randrange(1 + n_neg, len(variants))]]
                 for args in variants:
                     case = dict(proto, converter=name, args=args)
                     x = rng.random()
@@ -900,14 +1028,19 @@ def _from_game(game):
                         case["again"] = True
                     elif x < 0.18:
                         case["then"] = dict(base=rng.choice([b for b in bases[:3] + new_bases if b is not base]), ops=[rng.choice(singles)] if rng.random() < 0.5 else [])
-                    # the converter must leave the source untouched (checked), so one source serves all of them
-                    r = _run_case(case, src=src0)
+                    elif x < 0.28:
+                        case["change"] = [rng.choice(CHANGES) for _ in range(rng.choice([1, 1, 2]))]
+                    # the converter must leave the source untouched (checked), so one source serves all of them; a case that
+                    # changes its source after converting it builds a source of its own
+                    r = _run_case(case, src=None if "change" in case else src0)
                     if isinstance(r, str):
                         skipped[r[:80]] = skipped.get(r[:80], 0) + 1
                         continue
                     rep.case(case, nontrivial=bool(ops))
                     for dname, on in (("new_source", base in new_bases), ("fixture", base["kind"] == "fixture"), ("through_instance", "call" in case), ("same_source_twice", "again" in case),
-                                      ("other_source_in_between", "then" in case), ("explicit_argument", bool(args)), ("history", bool(ops))):
+                                      ("other_source_in_between", "then" in case), ("explicit_argument", bool(args)), ("history", bool(ops)),
+                                      ("source_changed_and_converted_again", "change" in case), ("first_lanes_empty", bool(base.get("lift"))),
+                                      ("negative_explicit_shift", any(isinstance(v, int) and not isinstance(v, bool) and v < 0 for v in args.values()))):
                         if on:
                             dims[dname] = dims.get(dname, 0) + 1
                     for what, d in r:
